@@ -629,3 +629,19 @@ func Controls(b *ssa.BasicBlock, target *ssa.BasicBlock) (bool, int) {
 	}
 	return true, 1
 }
+
+// IsLoopExitTest reports whether block b is the header of a loop that does
+// not contain target: its If merely decides when the loop is left.
+func IsLoopExitTest(b *ssa.BasicBlock, target *ssa.BasicBlock) bool {
+	isHeader := false
+	for _, p := range b.Preds {
+		if b.Dominates(p) {
+			isHeader = true
+		}
+	}
+	if !isHeader {
+		return false
+	}
+	// target inside the loop? (can target reach b again)
+	return !BlockReaches(target, b, nil) || target == b
+}
